@@ -970,6 +970,12 @@ class UnitEntry:
 
     run = __call__
 
+    failureException = AssertionError
+
+    def debug(self):
+        # (what -D calls instead of __call__)
+        return self._load().debug()
+
     def id(self):
         return '%s.%s' % (self._cls.__module__, self._cls.__name__)
 
